@@ -485,30 +485,7 @@ func RunC10(c *Ctx, r *Report) {
 	}
 	// rule 2
 	c.aesCbcEncryptRules(r, prefix)
-	// receiver purity (shared with C17 rule 2)
-	rule2 := prefix + "no-state"
-	r.Rule(rule2, "no IKECrypto method stores to a field of its receiver, to package state or to caller-visible non-buffer memory (so no IV or padding can be reused through object state)", 2)
-	if nt := c.NamedType("security/IKECrypto", "IKECrypto"); nt != nil {
-		iface := nt.Underlying().(*types.Interface)
-		for _, T := range c.Implementers(iface) {
-			for i := 0; i < iface.NumMethods(); i++ {
-				m := c.methodOf(T, iface.Method(i).Name())
-				if m == nil {
-					continue
-				}
-				var bad []string
-				for _, k := range c.ModSet(m).sorted() {
-					if strings.HasPrefix(k, "fresh:") {
-						continue
-					}
-					if strings.HasPrefix(k, "field:") || strings.HasPrefix(k, "global:") || strings.HasPrefix(k, "map:") || strings.HasPrefix(k, "deref:") {
-						bad = append(bad, k)
-					}
-				}
-				r.Check(len(bad) == 0, rule2, c.FuncName(m), c.Pos(m.Pos()), "transitive effects: "+strings.Join(c.ModSet(m).sorted(), ", "), "writes "+strings.Join(bad, ", "))
-			}
-		}
-	}
+	c.cipherNoStateRule(r, prefix+"no-state")
 	// rule 3: NewCrypto
 	rule3 := prefix + "key-size-guard"
 	r.Rule(rule3, "NewCrypto reaches aes.NewCipher only when len(key) equals the descriptor's own key length, returns an error otherwise, propagates aes.NewCipher's error, and the registered key lengths are 16, 24 and 32", 2)
@@ -580,4 +557,31 @@ func RunC10(c *Ctx, r *Report) {
 	c.pkcs7Rules(r, prefix)
 	// rule 5
 	c.aesCbcDecryptRules(r, prefix)
+}
+
+// cipherNoStateRule: no IKECrypto method keeps state (shared by C10 and C01: a cipher object that remembers a
+// buffer, an IV or a length from one message to the next breaks the round trip for histories of messages).
+func (c *Ctx) cipherNoStateRule(r *Report, rule2 string) {
+	r.Rule(rule2, "no IKECrypto method stores to a field of its receiver, to package state or to caller-visible non-buffer memory (so no IV or padding can be reused through object state)", 2)
+	if nt := c.NamedType("security/IKECrypto", "IKECrypto"); nt != nil {
+		iface := nt.Underlying().(*types.Interface)
+		for _, T := range c.Implementers(iface) {
+			for i := 0; i < iface.NumMethods(); i++ {
+				m := c.methodOf(T, iface.Method(i).Name())
+				if m == nil {
+					continue
+				}
+				var bad []string
+				for _, k := range c.ModSet(m).sorted() {
+					if strings.HasPrefix(k, "fresh:") {
+						continue
+					}
+					if strings.HasPrefix(k, "field:") || strings.HasPrefix(k, "global:") || strings.HasPrefix(k, "map:") || strings.HasPrefix(k, "deref:") {
+						bad = append(bad, k)
+					}
+				}
+				r.Check(len(bad) == 0, rule2, c.FuncName(m), c.Pos(m.Pos()), "transitive effects: "+strings.Join(c.ModSet(m).sorted(), ", "), "writes "+strings.Join(bad, ", "))
+			}
+		}
+	}
 }
